@@ -111,6 +111,20 @@ def renderWalk (c : UniCtx S) (fb : List Fallback) : List Item → Res (List Id)
     | .err e => .err e
     | .panic p => .panic p
 
+/-- Cost of a run of walk entries, accumulated from `base` the way the code does (the score of the entry's
+    bytes is subtracted; a hole, which a run of entries does not contain, would leave the cost unchanged). -/
+def runCost (tok : Bytes → Option (Id × S)) (base : S) (run : List Item) : S :=
+  run.foldl (fun acc it =>
+    match it with
+    | .entry b _ => (match tok b with | some (_, sc) => Cost.sub acc sc | none => acc)
+    | .hole _ => acc) base
+
+/-- Cost of a segmentation accumulated from `base` (`cost seg = segCostFrom Cost.zero seg`). -/
+def segCostFrom (base : S) (seg : List (Entry S)) : S := seg.foldl (fun acc e => Cost.sub acc e.score) base
+
+/-- A run of walk items without holes. -/
+def AllEntries (run : List Item) : Prop := ∀ it ∈ run, ∃ b id, it = Item.entry b id
+
 instance : Cost Int where
   zero := 0
   big := 1000000
